@@ -17,7 +17,7 @@ POOL = "_threads/_pool.py"
 TP = "python/threadpool.py"
 CONV = "_threads/_convenience.py"
 QT = "twisted._threads._team.Team"
-TECHNIQUE = "ownership (coordinator confinement) fixpoint + CFG must-pass/dominance + queue-end kinds"
+TECHNIQUE = "ownership fixpoint over call graph, CFG must-pass/dominance, queue-end operation kinds"
 EXPLANATION = (
     "Decides: (a) every read/write of Team._idle/_busyCount/_pending/_toShrink/_shouldQuitCoordinator and every call of "
     "_createWorker happens in a function that runs on the coordinator (lambda / decorated def handed to self._coordinator.do, "
@@ -32,7 +32,9 @@ EXPLANATION = (
     "(BaseException handler, single onResult call then reset), stop() quits the team before joining every tracked thread, and "
     "the worker limit test is busy + idle >= currentLimit(). Not decided: real thread schedules, behaviour of user callbacks. "
     "Every anchor function is also checked to be entered on every call (no memoising/wrapping decorator, duplicate definition or rebinding). "
+    "Methods: every clause is decided structurally (ownership fixpoint, dominance, must-pass incl. exception edges, operation kinds); nothing is evaluated. "
 )
+RULE_KINDS = {"*": "structural"}     # ownership fixpoint over the intra-class call graph, CFG dominance / must-pass incl. exception edges, queue-end operation kinds
 ASSUMPTIONS = [
     "the rules read a normalised view of the anchored modules (sa/props/_lib_j.Normaliser): private helpers expanded at their call sites, module constants and single-assignment pure temporaries substituted, loops over constant tuples unrolled; evaluation order inside one statement is not modelled",
    
